@@ -46,6 +46,7 @@ type World struct {
 	succVal          map[interface{}]ssa.Value
 	mbn              map[*ssa.Function][]*ssa.Return
 	mbnBusy          map[*ssa.Function]bool
+	pinned           map[*ssa.Function]ssa.CallInstruction
 	rootsInl         map[*ssa.Function]int
 }
 
